@@ -350,6 +350,11 @@ func (g *SyscallGroup) toSyscallsWithConditions() ([]SyscallWithConditions, erro
 				problems = append(problems, invalidArguments...)
 				continue
 			}
+			if len(nc.Conditions) == 0 {
+				// Without conditions the entry would compile to a rule that never matches.
+				problems = append(problems, fmt.Sprintf("syscall %v is listed with arguments but has no conditions", nc.Name))
+				continue
+			}
 			if check == nil {
 				conditions := []ArgumentConditions{nc.Conditions}
 				syscalls = append(syscalls, SyscallWithConditions{Num: syscall, Conditions: conditions})
